@@ -2,6 +2,9 @@
 (sigpy/mri/rf/trajgrad.py: trap_grad, min_trap_grad, spokes_grad)."""
 import json
 import math
+import os
+import subprocess
+import sys
 from fractions import Fraction as Fr
 
 import numpy as np
@@ -50,6 +53,22 @@ def fr(x):
 
 def rs(q):
     return "%d/%d" % (q.numerator, q.denominator) if q.denominator != 1 else str(q.numerator)
+
+
+def typed(v, how):
+    """the scalar types a caller hands to the designers: Python float ("py", default), numpy float64 ("np": what
+    spokes_grad itself passes on), and — when the value is integral (gmax = 4, dgdt = 20000, tbw = 4, sl_thick = 5) —
+    Python int ("int") / numpy int64 ("npint").  Same real number in every case, so the same demands."""
+    if how in ("int", "npint") and float(v).is_integer():
+        return int(v) if how == "int" else np.int64(int(v))
+    if how in ("np", "npint"):
+        return np.float64(v)
+    return float(v)
+
+
+def call_args(c):
+    how = c.get("scalar", "py")
+    return [typed(c[k], how) for k in ("area", "gmax", "dgdt", "dt")]
 
 
 def floor_sqrt(q):
@@ -136,11 +155,27 @@ def in_dom(c):
     return all(DOM[k][0] <= c[k] <= DOM[k][1] for k in DOM)
 
 
+def case_of(c):
+    """what a replay needs of a designer case"""
+    out = {k: c[k] for k in ("area", "gmax", "dgdt", "dt")}
+    if c.get("scalar", "py") != "py":
+        out["scalar"] = c["scalar"]
+    return out
+
+
 def rand_case(rng, maxlen):
     for _ in range(10000):
         c = {k: logu(rng, *DOM[k]) for k in DOM}
         if rng.random() < 0.3:   # round to few digits: exactly representable-ish, ties more likely
             c = {k: float("%.2g" % v) for k, v in c.items()}
+        u = rng.random()
+        if u < 0.15:             # integral hardware limits handed over as Python / numpy integers (gmax=4, dgdt=20000)
+            c["gmax"] = float(rng.randint(1, 10))
+            c["dgdt"] = float(rng.randint(1, 1000) * 100)
+            c["scalar"] = rng.choice(["int", "npint"])
+            c["kind"] = "int-hw"
+        elif u < 0.4:            # numpy float64 scalars (what spokes_grad and array-indexing callers pass)
+            c["scalar"] = "np"
         if in_dom(c) and pred_len(c) <= maxlen:
             return c
     raise RuntimeError("no case")
@@ -261,7 +296,7 @@ def run_real(fn, c, rec=None):
     if rec is not None:
         T.np = rec
     try:
-        w, r = f(c["area"], c["gmax"], c["dgdt"], c["dt"])
+        w, r = f(*call_args(c))
     except ValueError:
         return "err value"
     except Exception as e:  # noqa
@@ -292,6 +327,15 @@ def compare(ctx, stream, fn, cases):
     error of a few ulp crossed it: `ceil_perturb_iff`); that is counted, and anything else is a disagreement."""
     real, lines, idxs = [], [], []
     for c in cases:
+        c.pop("second_call", None)
+        if ctx.rng.random() < 0.12:
+            # the compared call is the SECOND one with these arguments; the caller has negated the first result in place
+            # (the model is a function of the arguments alone)
+            pre = run_real(fn, c)
+            if isinstance(pre, tuple) and pre[0].flags.writeable:
+                pre[0][...] *= -1.0
+            c["second_call"] = True      # (a disagreement on it is replayed by `search` as the two-call history it is)
+            ctx.count("%s:second-call-after-caller-negated-first-result" % fn)
         rec = NpRec()
         rr = run_real(fn, c, rec)
         real.append(rr)
@@ -310,6 +354,7 @@ def compare(ctx, stream, fn, cases):
         m = parse(rep)
         ctx.case((fn, ln), nontrivial=True, sample=dict(line=ln[:200], reply=rep[:160]) if ctx.evaluations % 41 == 0 else None)
         ctx.count("%s:%s" % (fn, c.get("kind", "random")))
+        ctx.count("%s:scalar-type:%s" % (fn, c.get("scalar", "py")))
         if isinstance(m, str) or isinstance(rr, str):
             if m != rr:
                 bad += 1
@@ -356,7 +401,11 @@ def spokes_labelled(rng, outside):
     Returns (protocol line, real result or 'err value', is some blip longer than the lobe)."""
     T = tg()
     n = rng.randint(1, 6)
-    k = np.array([[rng.choice([0, 0, 1, 2, -1, 3, 5]), rng.choice([0, 0, 1, -2, 2, -4])] for _ in range(n)], dtype=float)
+    kc = dict(k=[[rng.choice([0, 0, 1, 2, -1, 3, 5]), rng.choice([0, 0, 1, -2, 2, -4])] for _ in range(n)],
+              dtype=rng.choice(["float64", "float64", "float64", "int64", "int32", "int16", "float32"]),
+              layout=rng.choice(LAYOUTS))
+    k = make_k(kc)                       # the array handed to the real code (integer grid: every dtype holds it exactly)
+    hw = rng.choice(["py", "py", "np", "int", "npint"])
     nsub = rng.randint(3, 9)
     sub = np.arange(1, nsub + 1, dtype=float)
     tbw, sl_thick, gts = rng.choice([2, 4, 8]), rng.choice([5.0, 3.0, 10.0, 7.5]), rng.choice([4e-6, 1e-5, 2e-6])
@@ -381,12 +430,13 @@ def spokes_labelled(rng, outside):
     old = T.min_trap_grad, T.trap_grad
     T.min_trap_grad, T.trap_grad = fake_min, fake_trap
     try:
-        g = T.spokes_grad(k, tbw, sl_thick, 4.0, 2e4, gts)
+        g = T.spokes_grad(k, typed(tbw, hw), typed(sl_thick, hw), typed(4.0, hw), typed(2e4, hw), typed(gts, hw))
         real = [[Fr(float(v)) for v in row] for row in np.asarray(g, dtype=float)]
     except ValueError:
         real = "err value"
     finally:
         T.min_trap_grad, T.trap_grad = old
+    k = np.array(kc["k"], dtype=float)   # the spoke locations as real numbers (what the model is told)
     L = lambda v: ",".join(rs(fr(x)) for x in v) or "-"  # noqa
     W = lambda tab: ";".join(L(w) for w in tab.values()) or "-"  # noqa
     line = "C20 spokes n=%d kx=%s ky=%s tbw=%s slthick=%s gts=%s mk=%s mw=%s tk=%s tw=%s" % (
@@ -394,7 +444,8 @@ def spokes_labelled(rng, outside):
     # blips actually placed (the rewinder's table entry is the last one created)
     dk = [np.diff(np.concatenate((k[:, a], [0.0]))) / 4257 for a in (0, 1)]
     longer = any(abs(float(v)) in ttab and len(ttab[abs(float(v))]) > nsub for a in dk for v in a if v != 0)
-    return line, real, longer, dict(k=k.tolist(), nsub=nsub, tbw=tbw, sl_thick=sl_thick, gts=gts)
+    return line, real, longer, dict(k=kc["k"], dtype=kc["dtype"], layout=kc["layout"], scalar=hw, nsub=nsub, tbw=tbw,
+                                    sl_thick=sl_thick, gts=gts)
 
 
 def spokes_stream(ctx):
@@ -417,6 +468,8 @@ def spokes_stream(ctx):
             model = [[Fr(v) for v in part.split(",")] if part != "-" else [] for part in rep[3:].split(" | ")]
         else:
             model = rep
+        ctx.count("spokes:k-dtype:%s" % meta["dtype"])
+        ctx.count("spokes:k-layout:%s" % meta["layout"])
         if not longer:
             ctx.count("spokes:inside-domain:n=%d" % len(meta["k"]))
         elif real == "err value":
@@ -438,8 +491,16 @@ def correspond(ctx):
     ctx.rule = ("trap/mintrap: (area, gmax, dgdt, dt) floats passed to the model as their exact rational values; "
                 "log-uniform over the property's domain (30 % rounded to 2 digits), regime boundary, ceiling/floor ties "
                 "(ALL compared exactly: the model follows the float code through the doubles it rounded at each numbered site), "
-                "small flat tops; distinct by protocol line; spokes: real spokes_grad with table designers (labelled "
-                "sub-waveforms, 1/3 of the runs with blips longer than the slice-select lobe) vs the generated assembly")
+                "small flat tops; scalars handed over as Python float / numpy float64 / Python int / numpy int64 (integral "
+                "hardware limits); 12 % of the compared calls are the SECOND call with the same arguments after the caller "
+                "negated the first result in place; distinct by protocol line; spokes: real spokes_grad with table designers "
+                "(labelled sub-waveforms, 1/3 of the runs with blips longer than the slice-select lobe; k as float64 / float32 / "
+                "int64 / int32 / int16, C / Fortran / strided view / reversed view / read-only; scalar types as above) vs the "
+                "generated assembly.  search: the same designer classes; spokes_grad on float and integer-grid location sets in "
+                "all those dtypes / layouts, each designer call made by the assembly held against the designer's demands where it "
+                "is returned; call histories (repeats, area sweeps with 1-ulp neighbours, spokes A-B-A, the assembly's component "
+                "designs re-done stand-alone, caller-side in-place edits of returned arrays, kept results re-examined at the end), "
+                "a failing history being decided and reproduced in fresh interpreters")
     quick = ctx.tier == "quick"
     rng = ctx.rng
     maxlen = 3000 if quick else 6000
@@ -474,134 +535,488 @@ def correspond(ctx):
 
 
 # ---- the property's oracle on the real code -----------------------------------------------------
-def oracle_one(ctx, fn, c, origin):
-    area, gmax, dgdt, dt = c["area"], c["gmax"], c["dgdt"], c["dt"]
-    case = dict(fn=fn, case={k: c[k] for k in ("area", "gmax", "dgdt", "dt")})
-    f = tg().trap_grad if fn == "trap" else tg().min_trap_grad
-    name = "trap_grad" if fn == "trap" else "min_trap_grad"
-    try:
-        w, r = f(area, gmax, dgdt, dt)
-        w = np.asarray(w, dtype=float)
-        if w.ndim != 2 or w.shape[0] != 1 or w.shape[1] < 3:
-            raise ValueError("bad shape %s" % (w.shape,))
-        w = w[0]
-    except Exception as e:  # a positive request must be served
-        key = "C20:%s:raises" % name
-        if fn == "mintrap":
-            p = max(min_hint(c), 0)
-            a_, g_, s_, d_ = exact_params(c)
-            nfl = p
-            if p > 0 and a_ / p / d_ > g_:
-                nfl = math.ceil(a_ / g_ / d_)
-            if nfl == 0:
-                key = "C20:min_trap_grad:zero-flat-points"
-            elif nfl == 1:
-                key = "C20:min_trap_grad:one-flat-point"
-        ctx.fail(key, "%s raised %s for positive inputs" % (name, type(e).__name__), case, observed=repr(e),
-                 expected="a waveform", origin=origin)
-        return False
-    ok = True
+NAME = dict(trap="trap_grad", mintrap="min_trap_grad")
 
-    def bad(cond, what, obs, exp):
-        nonlocal ok
-        if cond:
-            ok = False
-            ctx.fail("C20:%s:%s" % (name, what), "%s violates: %s" % (name, what), case, observed=obs, expected=exp, origin=origin)
 
+def unpack(ret):
+    """(waveform, ramppts) as returned by a designer -> (private 1-d float copy of the samples, ramppts)"""
+    w, r = ret
+    w = np.array(w, dtype=float)
+    if w.ndim != 2 or w.shape[0] != 1 or w.shape[1] < 3:
+        raise ValueError("bad shape %s" % (w.shape,))
+    return w[0], r
+
+
+def wave_checks(fn, w, r, area, gmax, dgdt, dt):
+    """the property's demands on ONE designer result -> list of (what, observed, expected); empty = holds"""
     if not np.all(np.isfinite(w)):
-        bad(True, "finite", "non-finite samples", "finite waveform")
-        return False
-    bad(w[0] != 0 or w[-1] != 0, "ends-zero", (float(w[0]), float(w[-1])), (0.0, 0.0))
+        return [("finite", "non-finite samples", "finite waveform")]
+    out = []
+    if w[0] != 0 or w[-1] != 0:
+        out.append(("ends-zero", (float(w[0]), float(w[-1])), (0.0, 0.0)))
     if fn == "trap":
         tot = float(np.sum(w)) * dt
     else:
         r = int(r)
         tot = float(np.sum(w[r + 1: len(w) - r - 1])) * dt
-        bad(r < 1 or len(w) - 2 * (r + 1) < 1, "layout", (r, len(w)), "ramps and a non-empty flat top")
-    bad(abs(tot - area) > RTOL * area, "area", tot, area)
+        if r < 1 or len(w) - 2 * (r + 1) < 1:
+            out.append(("layout", (r, len(w)), "ramps and a non-empty flat top"))
+    if abs(tot - area) > RTOL * area:
+        out.append(("area", tot, area))
     pk = float(np.max(np.abs(w)))
-    bad(pk > gmax * (1 + RTOL), "gmax", pk, gmax)
+    if pk > gmax * (1 + RTOL):
+        out.append(("gmax", pk, gmax))
     sl = float(np.max(np.abs(np.diff(w)))) / dt
-    bad(sl > dgdt * (1 + RTOL), "slew", sl, dgdt)
-    return ok
+    if sl > dgdt * (1 + RTOL):
+        out.append(("slew", sl, dgdt))
+    return out
+
+
+def raise_key(fn, c):
+    key = "C20:%s:raises" % NAME[fn]
+    if fn == "mintrap":
+        p = max(min_hint(c), 0)
+        a_, g_, s_, d_ = exact_params(c)
+        nfl = p
+        if p > 0 and a_ / p / d_ > g_:
+            nfl = math.ceil(a_ / g_ / d_)
+        if nfl == 0:
+            key = "C20:min_trap_grad:zero-flat-points"
+        elif nfl == 1:
+            key = "C20:min_trap_grad:one-flat-point"
+    return key
+
+
+def oracle_one(ctx, fn, c, origin):
+    area, gmax, dgdt, dt = (float(c[k]) for k in ("area", "gmax", "dgdt", "dt"))
+    case = dict(fn=fn, case=case_of(c))
+    f = tg().trap_grad if fn == "trap" else tg().min_trap_grad
+    name = NAME[fn]
+    try:
+        w, r = unpack(f(*call_args(c)))
+    except Exception as e:  # a positive request must be served
+        ctx.fail(raise_key(fn, c), "%s raised %s for positive inputs" % (name, type(e).__name__), case, observed=repr(e),
+                 expected="a waveform", origin=origin)
+        return False
+    bad = wave_checks(fn, w, r, area, gmax, dgdt, dt)
+    for what, obs, exp in bad:
+        ctx.fail("C20:%s:%s" % (name, what), "%s violates: %s" % (name, what), case, observed=obs, expected=exp, origin=origin)
+    return not bad
+
+
+# ---- spoke location sets: values, dtypes, memory layouts ------------------------------------------------------
+LAYOUTS = ["C", "C", "F", "strided", "reversed", "readonly"]
+K_DTYPES = ["float64"] * 6 + ["int64", "int64", "int32", "int16", "uint8", "float32", "float32"]
+
+
+def make_k(c):
+    """the [Nspokes, 2] array handed to spokes_grad: c["k"] (exactly representable in c["dtype"]) with the dtype and the
+    memory layout of the case.  The property quantifies over spoke LOCATION sets: the same locations stored as float64,
+    float32 or integers (a 1/cm grid), C- or Fortran-ordered, as a strided / reversed view of a larger array or read-only,
+    request the same k-space moves."""
+    dt_ = np.dtype(c.get("dtype", "float64"))
+    k = np.array(c["k"], dtype=dt_).reshape(-1, 2)
+    lay = c.get("layout", "C")
+    if lay == "F":
+        k = np.asfortranarray(k)
+    elif lay == "strided":       # every other row / two inner columns of a larger array filled with a sentinel
+        big = np.full((2 * len(k) + 1, 5), 7, dtype=dt_)
+        big[1::2, 1:3] = k
+        k = big[1::2, 1:3]
+    elif lay == "reversed":      # negative row stride
+        k = k[::-1].copy()[::-1]
+    elif lay == "readonly":
+        k.setflags(write=False)
+    return k
 
 
 def spokes_params(rng):
     n = rng.randint(1, 8)
-    kmax = logu(rng, 0.02, 1.5)
-    k = np.array([[rng.uniform(-kmax, kmax), rng.uniform(-kmax, kmax)] for _ in range(n)])
-    if rng.random() < 0.4:
-        k[0] = 0
-    if n > 1 and rng.random() < 0.4:   # repeated coordinate -> no blip on that axis
-        j = rng.randrange(1, n)
-        k[j, rng.randrange(2)] = k[j - 1, rng.randrange(2)] if rng.random() < 0.5 else k[j - 1, 0]
-        k[j, 0] = k[j - 1, 0]
-    return dict(k=k.tolist(), tbw=rng.choice([2, 4, 6, 8]), sl_thick=rng.uniform(2, 10), gmax=rng.uniform(1, 8),
-                dgdt=logu(rng, 4e3, 2e4), dt=rng.choice([2e-6, 4e-6, 1e-5]))
+    dtype = rng.choice(K_DTYPES)
+    tbw = rng.choice([2, 4, 6, 8])
+    how = rng.choice(["py", "py", "py", "np", "int", "npint"])
+    gmax, sl_thick, dgdt = rng.uniform(1, 8), rng.uniform(2, 10), logu(rng, 4e3, 2e4)
+    if how in ("int", "npint") or rng.random() < 0.15:      # integral hardware values (gmax=4, dgdt=18000, sl_thick=5)
+        gmax, dgdt = float(rng.randint(1, 8)), float(rng.randint(40, 200) * 100)
+        if rng.random() < 0.6:
+            sl_thick = float(rng.randint(2, 10))
+    if "int" in dtype:
+        # spoke locations on an integer (1/cm) grid; the slice is kept thin enough that most steps still fit into one
+        # slice-select lobe (the rest is outside the domain and only observed)
+        grid = rng.choice([1, 1, 2, 3])
+        lo = 0 if dtype.startswith("u") else -grid
+        k = [[rng.randint(lo, grid), rng.randint(lo, grid)] for _ in range(n)]
+        sl_thick = min(sl_thick, max(2.0, float(int(4 * tbw / grid)))) if rng.random() < 0.8 else sl_thick
+    else:
+        kmax = logu(rng, 0.02, 1.5)
+        k = np.array([[rng.uniform(-kmax, kmax), rng.uniform(-kmax, kmax)] for _ in range(n)])
+        if rng.random() < 0.4:
+            k[0] = 0
+        if n > 1 and rng.random() < 0.4:   # repeated coordinate -> no blip on that axis
+            j = rng.randrange(1, n)
+            k[j, rng.randrange(2)] = k[j - 1, rng.randrange(2)] if rng.random() < 0.5 else k[j - 1, 0]
+            k[j, 0] = k[j - 1, 0]
+        if n > 1 and rng.random() < 0.2:   # there and back / very small step
+            j = rng.randrange(1, n)
+            k[j] = -k[j - 1] if rng.random() < 0.5 else k[j - 1] * (1 + 1e-6)
+        if rng.random() < 0.15:            # a few-digit grid in 1/cm (0.25 steps)
+            k = np.round(k * 4) / 4
+        k = k.astype(dtype).astype(float).tolist()           # exactly representable in the case's dtype
+    c = dict(k=k, tbw=tbw, sl_thick=sl_thick, gmax=gmax, dgdt=dgdt, dt=rng.choice([2e-6, 4e-6, 1e-5]))
+    if dtype != "float64":
+        c["dtype"] = dtype
+    lay = rng.choice(LAYOUTS)
+    if lay != "C":
+        c["layout"] = lay
+    if how != "py":
+        c["scalar"] = how
+    return c
 
 
-def oracle_spokes(ctx, c, origin):
+class Tap:
+    """pass-through observers on trajgrad.min_trap_grad / trap_grad while spokes_grad runs: every designer call made by
+    the assembly is recorded (arguments) and its result is held against the designer's own part of the property at the
+    moment it is returned (`spokes_limits_designers` needs exactly that of each call)."""
+
+    def __init__(self, T):
+        self.T, self.calls, self.viol = T, [], []
+
+    def wrap(self, fn, f):
+        def g(area, gmax, dgdt, dt, *a):
+            ret = f(area, gmax, dgdt, dt, *a)
+            try:
+                args = [float(area), float(gmax), float(dgdt), float(dt)]
+                self.calls.append((fn, args))
+                if not a and min(args) > 0:
+                    w, r = unpack(ret)
+                    for what, obs, exp in wave_checks(fn, w, r, *args):
+                        self.viol.append((NAME[fn], what, dict(designer_call=args, observed=obs), exp))
+            except Exception as e:  # noqa
+                self.viol.append((NAME[fn], "raises", dict(designer_call=repr((area, gmax, dgdt, dt)), observed=repr(e)),
+                                  "a waveform"))
+            return ret
+        return g
+
+    def __enter__(self):
+        self.old = self.T.min_trap_grad, self.T.trap_grad
+        self.T.min_trap_grad, self.T.trap_grad = self.wrap("mintrap", self.old[0]), self.wrap("trap", self.old[1])
+        return self
+
+    def __exit__(self, *a):
+        self.T.min_trap_grad, self.T.trap_grad = self.old
+
+
+def spokes_eval(c):
+    """one spokes_grad call held against the property -> (status, violations, designer calls made by the assembly);
+    violation = (function name, what, observed, expected)"""
     T = tg()
-    k = np.array(c["k"], dtype=float).reshape(-1, 2)
-    gmax, dgdt, dt = c["gmax"], c["dgdt"], c["dt"]
+    k = make_k(c)                                             # what the real code gets
+    kf = np.array(c["k"], dtype=float).reshape(-1, 2)         # the locations as real numbers
+    how = c.get("scalar", "py")
+    tbw, sl_thick = typed(c["tbw"], how), typed(c["sl_thick"], how)
+    gmax, dgdt, dt = float(c["gmax"]), float(c["dgdt"]), float(c["dt"])
+    hw = (typed(gmax, how), typed(dgdt, how), typed(dt, how))
     area = c["tbw"] / (c["sl_thick"] / 10) / 4257
     try:
         sub, _ = T.min_trap_grad(area, gmax, dgdt, dt)
         nsub = np.size(sub)
-        dk = np.stack([np.diff(np.concatenate((k[:, a], [0.0]))) for a in (0, 1)])
+        dk = np.stack([np.diff(np.concatenate((kf[:, a], [0.0]))) for a in (0, 1)])
         for v in np.abs(dk).ravel():
             if v > 0 and np.size(T.trap_grad(v / 4257, gmax, dgdt, dt)[0]) > nsub:
                 # outside the domain (a blip is played during one slice-select lobe): nothing is demanded; what the real
                 # code does there is recorded as an observation
                 try:
-                    T.spokes_grad(k, c["tbw"], c["sl_thick"], gmax, dgdt, dt)
-                    ctx.count("oracle:spokes:outside-domain:returns-with-overwritten-samples")
+                    T.spokes_grad(k, tbw, sl_thick, *hw)
+                    return "outside-domain:returns-with-overwritten-samples", [], []
                 except ValueError:
-                    ctx.count("oracle:spokes:outside-domain:vstack-raises-ValueError")
+                    return "outside-domain:vstack-raises-ValueError", [], []
                 except Exception as e:  # noqa
-                    ctx.count("oracle:spokes:outside-domain:raises-%s" % type(e).__name__)
-                return True
+                    return "outside-domain:raises-%s" % type(e).__name__, [], []
     except Exception:
-        return True               # sub-designer failures are reported by their own oracle
+        return "designer-failed", [], []   # sub-designer failures are reported by their own oracle
+    tap = Tap(T)
     try:
-        g = np.asarray(T.spokes_grad(k, c["tbw"], c["sl_thick"], gmax, dgdt, dt), dtype=float)
+        with tap:
+            g = np.asarray(T.spokes_grad(k, tbw, sl_thick, *hw), dtype=float)
     except Exception as e:
-        ctx.fail("C20:spokes_grad:raises", "spokes_grad raised %s" % type(e).__name__, c, observed=repr(e), expected="waveforms", origin=origin)
-        return False
-    ok = True
-
-    def bad(cond, what, obs, exp):
-        nonlocal ok
-        if cond:
-            ok = False
-            ctx.fail("C20:spokes_grad:%s" % what, "spokes_grad violates: %s" % what, c, observed=obs, expected=exp, origin=origin)
-
-    bad(g.ndim != 2 or g.shape[0] != 3 or g.shape[1] < len(k) * nsub, "shape", g.shape, "(3, Nt)")
-    if not ok:
-        return False
+        return "checked", [("spokes_grad", "raises", repr(e), "waveforms")], tap.calls
+    if g.ndim != 2 or g.shape[0] != 3 or g.shape[1] < len(kf) * nsub:
+        return "checked", [("spokes_grad", "shape", g.shape, "(3, Nt)")], tap.calls
+    out = []
     for ax in range(3):
         w = g[ax]
-        bad(w[0] != 0 or w[-1] != 0, "ends-zero", (ax, float(w[0]), float(w[-1])), 0.0)
+        if w[0] != 0 or w[-1] != 0:
+            out.append(("spokes_grad", "ends-zero", (ax, float(w[0]), float(w[-1])), 0.0))
         pk = float(np.max(np.abs(w)))
-        bad(pk > gmax * (1 + RTOL), "gmax", (ax, pk), gmax)
+        if pk > gmax * (1 + RTOL):
+            out.append(("spokes_grad", "gmax", (ax, pk), gmax))
         sl = float(np.max(np.abs(np.diff(w)))) / dt
-        bad(sl > dgdt * (1 + RTOL), "slew", (ax, sl), dgdt)
-    scale = max(float(np.max(np.abs(k))), float(np.max(np.abs(dk))), 1e-12)
+        if sl > dgdt * (1 + RTOL):
+            out.append(("spokes_grad", "slew", (ax, sl), dgdt))
+    scale = max(float(np.max(np.abs(kf))), float(np.max(np.abs(dk))), 1e-12)
     for ax in range(2):
-        for i in range(len(k)):
+        for i in range(len(kf)):
             inc = 4257 * float(np.sum(g[ax, i * nsub:(i + 1) * nsub])) * dt
-            bad(abs(inc - dk[ax, i]) > RTOL * scale, "kspace-increment", (ax, i, inc), float(dk[ax, i]))
-        tail = 4257 * float(np.sum(g[ax, len(k) * nsub:])) * dt
-        bad(abs(tail) > RTOL * scale, "kspace-increment", (ax, "rephaser", tail), 0.0)
-    return ok
+            if abs(inc - dk[ax, i]) > RTOL * scale:
+                out.append(("spokes_grad", "kspace-increment", (ax, i, inc), float(dk[ax, i])))
+        tail = 4257 * float(np.sum(g[ax, len(kf) * nsub:])) * dt
+        if abs(tail) > RTOL * scale:
+            out.append(("spokes_grad", "kspace-increment", (ax, "rephaser", tail), 0.0))
+    # the designs the assembly asked for, each held against the designer's own demands where it was returned
+    out += tap.viol
+    return "checked", out, tap.calls
+
+
+def spokes_key(name, what):
+    return "C20:spokes_grad:%s" % what if name == "spokes_grad" else "C20:spokes_grad:designer-call:%s:%s" % (name, what)
+
+
+def oracle_spokes(ctx, c, origin):
+    status, viol, _ = spokes_eval(c)
+    if status != "checked":
+        if status.startswith("outside"):
+            ctx.count("oracle:spokes:" + status)
+        return True
+    ctx.count("oracle:spokes:inside-domain:k-dtype:%s" % c.get("dtype", "float64"))
+    for name, what, obs, exp in viol:
+        ctx.fail(spokes_key(name, what), "spokes_grad violates: %s%s" % (what, "" if name == "spokes_grad" else " (in its %s call)" % name),
+                 c, observed=obs, expected=exp, origin=origin)
+    return not viol
+
+
+# ---- call histories ------------------------------------------------------------------------------------------------
+# The property is about EVERY call: "for every positive area ... trap_grad returns a waveform that ...".  Nothing in it
+# depends on what was designed before, on what the caller did with an earlier result, or on whether two results are
+# alive at the same time.  A history is a list of steps run in order in one process:
+#   {"op": "design", "fn": "trap"|"mintrap", "case": {...}, "after": None|"negate"|"scale"|"fill"}
+#         one designer call, checked; then the CALLER edits the returned array in place (as spokes_grad's callers and
+#         users building their own waveforms do) — or keeps it, in which case it is checked again at the end
+#   {"op": "spokes", "p": {...}}          one spokes_grad call (incl. the oracle's own domain pre-designs), checked
+#   {"op": "redesign", "of": i, "after": ...}   stand-alone designer calls with exactly the arguments the assembly of
+#         step i used (sub-lobe, every blip, rewinder); resolved into explicit "design" steps when run
+AFTER = [None, None, "negate", "negate", "scale", "fill"]
+
+
+def run_session(steps):
+    """-> (violations, resolved steps); violation = dict(step, name, what, observed, expected, stage)"""
+    T = tg()
+    resolved, viol, kept, rec = [], [], [], {}
+
+    def design(st):
+        i = len(resolved)
+        resolved.append(st)
+        fn, c = st["fn"], st["case"]
+        args = [float(c[k]) for k in ("area", "gmax", "dgdt", "dt")]
+        f = T.trap_grad if fn == "trap" else T.min_trap_grad
+        try:
+            ret = f(*call_args(c))
+            w, r = unpack(ret)
+        except Exception as e:
+            viol.append(dict(step=i, name=NAME[fn], what="raises", observed=repr(e), expected="a waveform", stage="call"))
+            return
+        bad = wave_checks(fn, w, r, *args)
+        for what, obs, exp in bad:
+            viol.append(dict(step=i, name=NAME[fn], what=what, observed=obs, expected=exp, stage="call"))
+        arr, after = ret[0], st.get("after")
+        if after and isinstance(arr, np.ndarray) and arr.flags.writeable:
+            if after == "negate":
+                np.negative(arr, out=arr)
+            elif after == "scale":
+                arr *= 0.5
+            else:
+                arr[...] = 12345.0
+        elif not after and not bad:
+            kept.append((i, fn, args, ret))
+
+    for j, st in enumerate(steps):
+        if st["op"] == "design":
+            design(dict(op="design", fn=st["fn"], case=st["case"], after=st.get("after")))
+        elif st["op"] == "spokes":
+            i = len(resolved)
+            resolved.append(dict(op="spokes", p=st["p"]))
+            status, bad, calls = spokes_eval(st["p"])
+            rec[j] = calls
+            for name, what, obs, exp in bad:
+                viol.append(dict(step=i, name=name, what=what, observed=obs, expected=exp, stage="call"))
+        else:
+            seen = []
+            for fn, args in rec.get(st["of"], []):
+                if (fn, args) not in seen and min(args) > 0 and len(seen) < 12:
+                    seen.append((fn, args))
+                    design(dict(op="design", fn=fn, case=dict(area=args[0], gmax=args[1], dgdt=args[2], dt=args[3], scalar="np"),
+                                after=st.get("after")))
+    for i, fn, args, ret in kept:      # results the caller still holds must still be what was returned
+        try:
+            w, r = unpack(ret)
+            bad = wave_checks(fn, w, r, *args)
+        except Exception as e:  # noqa
+            bad = [("raises", repr(e), "the waveform returned at step %d" % i)]
+        for what, obs, exp in bad:
+            viol.append(dict(step=i, name=NAME[fn], what=what, observed=obs, expected=exp, stage="recheck-after-later-calls"))
+    return viol, resolved
+
+
+def gen_session(rng):
+    D = lambda fn, c, after=None: dict(op="design", fn=fn, case=case_of(c), after=after)  # noqa
+    S = lambda p: dict(op="spokes", p=p)  # noqa
+    kind = rng.choice(["designer-repeat", "designer-repeat", "sweep", "spokes-repeat", "spokes-repeat", "spokes-components",
+                       "spokes-components"])
+    if kind == "designer-repeat":       # same arguments again, possibly with another design in between
+        fn = rng.choice(["trap", "mintrap"])
+        c = rand_case(rng, 3000)
+        steps = [D(fn, c, rng.choice(AFTER))]
+        if rng.random() < 0.5:
+            c2 = dict(c, area=min(1.0, max(1e-6, c["area"] * rng.choice([0.5, 2.0, 1 + 1e-7, 3.0]))))
+            steps.append(D(rng.choice([fn, "trap", "mintrap"]), c2, rng.choice(AFTER)))
+        if rng.random() < 0.3:          # the other designer with the very same arguments
+            steps.append(D("mintrap" if fn == "trap" else "trap", c, rng.choice(AFTER)))
+        steps.append(D(fn, c, rng.choice(AFTER)))
+        if rng.random() < 0.3:
+            steps.append(D(fn, c))
+    elif kind == "sweep":               # an area sweep on one hardware set, forward and back; neighbours 1 ulp / 1e-7 apart
+        fn = rng.choice(["trap", "mintrap"])
+        c = rand_case(rng, 3000)
+        a = c["area"]
+        areas = [a, float(np.nextafter(a, 2.0)), a * (1 + 1e-7), a * 1.5, a * 0.5]
+        rng.shuffle(areas)
+        areas = [x for x in areas[:rng.randint(2, 5)] if DOM["area"][0] <= x <= DOM["area"][1]] or [a]
+        steps = [D(fn, dict(c, area=x), rng.choice(AFTER)) for x in areas]
+        steps += [D(fn, dict(c, area=x)) for x in reversed(areas)]
+    else:
+        p = spokes_params(rng)
+        if kind == "spokes-repeat":     # the same spoke set again; or A, B, A with B on the same hardware
+            steps = [S(p)]
+            if rng.random() < 0.5:
+                q = spokes_params(rng)
+                q = dict(q, **{x: p[x] for x in ("tbw", "sl_thick", "gmax", "dgdt", "dt")})
+                if rng.random() < 0.5:
+                    q["k"] = [[-x, y] for x, y in p["k"]] if "uint" not in p.get("dtype", "") else p["k"]
+                    for x in ("dtype", "layout"):
+                        q.pop(x, None)
+                        if x in p:
+                            q[x] = p[x]
+                steps.append(S(q))
+            steps.append(S(p))
+            if rng.random() < 0.3:
+                steps.append(S(p))
+        else:                           # spokes, then its components designed by hand, then spokes again
+            steps = [S(p), dict(op="redesign", of=0, after=rng.choice(AFTER))]
+            if rng.random() < 0.7:
+                steps.append(S(p))
+            if rng.random() < 0.4:
+                steps.append(dict(op="redesign", of=0, after=None))
+    return kind, steps
+
+
+def fresh_run(steps):
+    """run a history in a NEW interpreter (nothing designed before) -> its violations, or None (could not be run)"""
+    code = ("import sys, json\nfrom harness.props import c20\nv, _ = c20.run_session(json.loads(sys.stdin.read()))\n"
+            "print('RESULT ' + json.dumps(v, default=str))\n")
+    env = dict(os.environ, PYTHONPATH=os.pathsep.join([common.REPO, common.VERIF]))
+    env.setdefault("SIGPY_VERIF", "1")
+    try:
+        p = subprocess.run([sys.executable, "-c", code], input=json.dumps(steps), stdout=subprocess.PIPE, stderr=subprocess.PIPE,
+                           text=True, timeout=600, cwd=common.VERIF, env=env)
+        for ln in p.stdout.split("\n"):
+            if ln.startswith("RESULT "):
+                return json.loads(ln[7:])
+    except Exception:  # noqa
+        pass
+    return None
+
+
+def report_session(ctx, kind, viol, resolved):
+    """a history on which some call violated the property: decide in fresh interpreters whether the failing call fails on
+    its own (then it is an ordinary failing input) or only after the earlier calls, and report it with everything
+    needed to re-run it"""
+    v = viol[0]
+    i = v["step"]
+    st = resolved[i]
+    alone = None
+    if v["stage"] == "call":
+        alone = fresh_run([dict(st, after=None) if st["op"] == "design" else st])
+    if alone:
+        a = alone[0]
+        if st["op"] == "design":
+            key = raise_key(st["fn"], st["case"]) if a["what"] == "raises" else "C20:%s:%s" % (a["name"], a["what"])
+            case = dict(fn=st["fn"], case=st["case"])
+        else:
+            key, case = spokes_key(a["name"], a["what"]), st["p"]
+        ctx.fail(key, "%s violates: %s" % (a["name"], a["what"]), case, observed=a["observed"], expected=a["expected"],
+                 origin="history-step-alone")
+        return
+    same = lambda x: any(y["name"] == v["name"] and y["what"] == v["what"] for y in x or [])  # noqa
+    hist = resolved if v["stage"] != "call" else resolved[:i + 1]
+    again = fresh_run(hist)
+    if not same(again) and len(hist) < len(resolved):
+        # (the interpreter of this run may already have been in the state the first steps produce: try the whole history)
+        whole = fresh_run(resolved)
+        if same(whole):
+            hist, again = resolved, whole
+    if same(again):
+        v = next(x for x in again if x["name"] == v["name"] and x["what"] == v["what"])   # as seen in the fresh interpreter
+        i = v["step"]
+        if v["stage"] == "call":
+            hist = hist[:i + 1]
+        st = hist[i]
+        if len(hist) > 2 and st["op"] == "design" and v["stage"] == "call":
+            # one attempt at a shorter history: drop the stand-alone designs with other arguments than the failing call's
+            sig = lambda x: (x["fn"],) + tuple(float(x["case"][q]) for q in ("area", "gmax", "dgdt", "dt"))  # noqa
+            short = [x for x in hist[:-1] if x["op"] != "design" or sig(x) == sig(st)] + [st]
+            sv = fresh_run(short) if len(short) < len(hist) else None
+            if same(sv):
+                hist = short
+                v = next(x for x in sv if x["name"] == v["name"] and x["what"] == v["what"])
+                i = v["step"]
+    repro = "could not be re-run" if again is None else (
+        "reproduced" if same(again) else
+        "NOT reproduced (depends on calls made earlier in this run: same seed and tier needed)")
+    ctx.fail("C20:%s:%s:call-history" % (v["name"], v["what"]),
+             "%s violates '%s' %s (history kind %s; the call alone, in a fresh interpreter, %s)" % (
+                 v["name"], v["what"], "at step %d of a call history" % i if v["stage"] == "call" else
+                 "on the result returned at step %d, re-examined after the later calls" % i, kind,
+                 "holds" if alone is not None else "was not run"),
+             dict(history=hist), observed=dict(step=i, observed=v["observed"], stage=v["stage"], fresh_interpreter=repro),
+             expected=v["expected"], origin="history")
+
+
+def history_search(ctx, n):
+    rng = ctx.rng
+    confirmed = 0
+    for _ in range(n):
+        kind, steps = gen_session(rng)
+        ctx.case(("oracle", "history", json.dumps(steps, sort_keys=True, default=str)))
+        ctx.count("oracle:history:%s" % kind)
+        viol, resolved = run_session(steps)
+        ctx.count("oracle:history:calls", len(resolved))
+        if viol:
+            ctx.count("oracle:history:failing")
+            if confirmed < 3:           # each report costs two fresh interpreters
+                confirmed += 1
+                report_session(ctx, kind, viol, resolved)
 
 
 def search(ctx, budget):
     rng = ctx.rng
+    second = 0
     for d in ctx.disagreements[:100]:
         cc = d["case"]
-        if "fn" in cc:
+        if "fn" in cc and cc["case"].get("second_call"):
+            # the compared call was the second one with these arguments (the caller had negated the first result in
+            # place): replayed as that two-call history, decided in fresh interpreters
+            steps = [dict(op="design", fn=cc["fn"], case=case_of(cc["case"]), after="negate"),
+                     dict(op="design", fn=cc["fn"], case=case_of(cc["case"]), after=None)]
+            viol, resolved = run_session(steps)
+            if viol and second < 2:
+                second += 1
+                report_session(ctx, "second-call(disagreement)", viol, resolved)
+        elif "fn" in cc:
             oracle_one(ctx, cc["fn"], cc["case"], "disagreement")
+        elif "k" in cc and "gts" in cc:
+            # a spokes-assembly disagreement: the same spoke set (dtype, layout, scalar types) with the real designers
+            c = dict(k=cc["k"], tbw=cc["tbw"], sl_thick=cc["sl_thick"], gmax=4.0, dgdt=2e4, dt=cc["gts"])
+            c.update({x: cc[x] for x in ("dtype", "layout", "scalar") if cc.get(x) not in (None, "float64", "C", "py")})
+            oracle_spokes(ctx, c, "disagreement")
     # the recorded defect class of the pinned commit stays in the domain
     for c in [dict(area=1e-6, gmax=4.0, dgdt=1e4, dt=1e-4), dict(area=3e-6, gmax=4.0, dgdt=1e4, dt=1e-4),
               dict(area=1e-6, gmax=0.1, dgdt=1e5, dt=1e-5)]:
@@ -614,7 +1029,7 @@ def search(ctx, budget):
         if fn == "mintrap":
             cases += small_flat_cases(rng, n // 2)
         for c in cases:
-            ctx.case(("oracle", fn, c["area"], c["gmax"], c["dgdt"], c["dt"]))
+            ctx.case(("oracle", fn, c["area"], c["gmax"], c["dgdt"], c["dt"], c.get("scalar", "py")))
             ctx.count("oracle:%s:%s" % (fn, c.get("kind", "random")))
             oracle_one(ctx, fn, c, "search")
     if budget > 1:   # a few very long waveforms
@@ -622,11 +1037,13 @@ def search(ctx, budget):
             c = rand_case(rng, 2e7)
             ctx.count("oracle:trap:long")
             oracle_one(ctx, "trap", c, "search-long")
-    for _ in range(int(60 * budget)):
+    for _ in range(int(150 * budget)):
         c = spokes_params(rng)
         ctx.case(("oracle", "spokes", json.dumps(c, sort_keys=True)))
         ctx.count("oracle:spokes")
+        ctx.count("oracle:spokes:k-layout:%s" % c.get("layout", "C"))
         oracle_spokes(ctx, c, "search")
+    history_search(ctx, int(120 * budget))
 
 
 def replay(path):
@@ -636,9 +1053,15 @@ def replay(path):
         return 0
     ctx = common.Ctx(PROPERTY, "quick", 0)
     cc = r["case"]
-    if "fn" in cc:
+    if "history" in cc:
+        # this interpreter has designed nothing yet: the history is run from the start
+        viol, _ = run_session(cc["history"])
+        for v in viol:
+            print("  step %d %s: %s observed %s expected %s (%s)" % (v["step"], v["name"], v["what"], v["observed"], v["expected"], v["stage"]))
+        ok = not viol
+    elif "fn" in cc:
         ok = oracle_one(ctx, cc["fn"], cc["case"], "replay")
-        if all(v > 0 for v in cc["case"].values()):
+        if all(cc["case"][k] > 0 for k in ("area", "gmax", "dgdt", "dt")):
             print("model:", ctx.driver([model_line(cc["fn"], cc["case"], [0, 1, 2])])[0][:300])
     else:
         ok = oracle_spokes(ctx, cc, "replay")
